@@ -225,8 +225,13 @@ def classify(index, res, scratch):
                     for o in d.get('spans', []):
                         if o.get('label') and o.get('text'):
                             clause = ' '.join(t['text'].strip() for t in o['text'])[:300]
+                    clause_line = None
+                    for o in d.get('spans', []):
+                        if o.get('label') and 'failed' in (o.get('label') or '') and o['file_name'] == s['file_name']:
+                            clause_line = o['line_start']
                     verdicts[u['uid']]['errors'].append({
                         'kind': kind, 'message': msg, 'line_annotated': s['line_start'], 'text': text,
+                        'clause_line': clause_line, 'file': rel,
                         'labels': labels, 'clause': clause, 'rendered': d.get('rendered', '')[:3000]})
                     placed = True
                     break
